@@ -14,20 +14,25 @@ EXTENDS VarName, TLC, Json, IOUtils
 CONSTANTS Mode, Depth
 VARIABLE c
 
-Alpha == {97, 65, 98, 95, 45, 195, 169, 137}
+\* letters in both cases, '_' and '-', the two bytes of e-acute / E-acute, and the bytes right next to the letter ranges
+\* ('@' '[' '`' '{'): an off-by-one in a hand-written case fold shows only there
+Alpha == {97, 65, 98, 95, 45, 195, 169, 137, 64, 91, 96, 123, 122, 90}
 RECURSIVE Strs(_)
 Strs(n) == IF n = 0 THEN { <<>> } ELSE LET s == Strs(n - 1) IN s \cup { Append(x, a) : x \in { y \in s : Len(y) = n - 1 }, a \in Alpha }
 Small == Strs(Depth)
 
 Names == IF Mode = "vectors" THEN ndJsonDeserialize(IOEnv.NAMES) ELSE << >>
-Variants(n) == << Upper(n), Lower(n), Mixed(n), SubSeq(n, 1, Len(n) - 1), [n EXCEPT ![1] = 195] \o << 169 >>, n \o << 95 >> >>
+\* Across(n): the bytes next to the letter ranges exchanged with the byte 32 further on ('@' <-> '`', '[' <-> '{'),
+\* which a correct ASCII case fold keeps apart
+Across(n) == [i \in DOMAIN n |-> CASE n[i] = 64 -> 96 [] n[i] = 96 -> 64 [] n[i] = 91 -> 123 [] n[i] = 123 -> 91 [] OTHER -> n[i]]
+Variants(n) == << Upper(n), Lower(n), Mixed(n), SubSeq(n, 1, Len(n) - 1), [n EXCEPT ![1] = 195] \o << 169 >>, n \o << 95 >>, Across(n) >>
 
 Case(a, b) == [t |-> "vn", a |-> a, b |-> b, eq |-> FoldEq(a, b), cmp |-> FoldCmp(a, b), ha |-> HashWrites(a, 16), hb |-> HashWrites(b, 16),
                ua |-> Upper(a), hv |-> HeaderVar(Lower(a))]
 
 Init ==
   IF Mode = "laws" THEN c \in { [t |-> "law", a |-> a] : a \in Small }
-  ELSE \E i \in 1..Len(Names) : \E x \in 1..6 : \E y \in 1..6 :
+  ELSE \E i \in 1..Len(Names) : \E x \in 1..7 : \E y \in 1..7 :
          c = Case(Variants(Names[i].n)[x], Variants(Names[IF y = 6 /\ i < Len(Names) THEN i + 1 ELSE i].n)[y])
 Next == UNCHANGED c
 Spec == Init /\ [][Next]_c
